@@ -79,3 +79,36 @@ fn c12_in_range_len2_f64() {
     kani::cover!(power >= 2.0 && y[1] == 0.0 && !got);
     kani::cover!(power <= 0.0 && y[0] < 0.0 && got);
 }
+
+// =================================================================================================
+// C12: "a stationary point of 1/2*(deviance + alpha*||w||^2) for every supported power": the Poisson (power 1) unit deviance is
+// 2*(y*ln(y/mu) - y + mu) (0*ln 0 = 0) - the textbook formula, which is also what the deviance DERIVATIVE -2*(y - mu)/mu integrates to.
+// Repaired defect (/repo f60d5b1): the factor 2 was applied to the logarithmic term only.
+// ln is the functional ghost; its value at y/mu is pinned to a small integer so that every association of the sum is exact.
+// =================================================================================================
+// @include common/ghost_f32.rs
+// @unit class=bounded tier=quick mem=light bound="len=1; y in 0..=4, mu in {1,2,4} (exact quotient), ghost ln value in -4..=4" timeout=600 fns=linfa_linear::glm::distribution::TweedieDistribution::unit_deviance
+#[kani::proof]
+#[kani::unwind(4)]
+#[kani::stub(alloc::fmt::format, fmt_stub)]
+#[kani::stub(f32::ln, ghost_ln32)]
+fn c12_poisson_unit_deviance() {
+    let yi: u8 = kani::any();
+    let mi: u8 = kani::any();
+    kani::assume(yi <= 4 && mi <= 2);
+    let y = yi as f32;
+    let mu = (1u8 << mi) as f32;
+    let d = TweedieDistribution::<f32>::new(1.0).unwrap();
+    let r = d.unit_deviance(Array1::from(vec![y]).view(), Array1::from(vec![mu]).view());
+    assert!(r.is_ok());
+    let got = r.unwrap()[0];
+    if y == 0.0 {
+        assert!(got == 2.0 * mu);
+    } else {
+        let l = ghost_ln32(y / mu);          // functional: the value the code was given for the same argument
+        kani::assume(l == (l as i8) as f32 && l >= -4.0 && l <= 4.0);
+        assert!(got == 2.0 * (y * l - y + mu));
+    }
+    kani::cover!(y == 0.0);
+    kani::cover!(y == 3.0 && mu == 2.0);
+}
